@@ -706,7 +706,6 @@ func Child(c *run.Ctx, name string) {
 		panic(err)
 	}
 	rn := newRunner(fmt.Sprintf("c15-%d-%d", cfg.Lane, os.Getpid()))
-	defer rn.rd.Server.Close()
 	minimised := map[string]bool{}
 	decoded := 0
 	for i := 0; i < cfg.N; i++ {
